@@ -3,4 +3,5 @@
 #include <stdint.h>
 extern uint64_t g_ds_major, g_ds_minor;
 extern uintmax_t g_dp_offset; extern unsigned g_dp_live; extern uint64_t g_dp_pos_major, g_dp_pos_minor;
+extern int g_stub_ad;
 #endif
